@@ -1,7 +1,9 @@
 (* CloseconnRun.v — line-protocol adapter for Model/CloseConn.v (harness glue, executable).
    Case line:  closeconn batch <scenario,scenario,...>
    scenario = <max>.<broker>.<pre>.<closes>           closing a connection
-     broker: fail | good | hold | holdgood   (what the first rendezvous attempt of the connect loop meets)
+     broker: fail | good | hold | holdgood | silent  (what the first rendezvous attempt of the connect loop meets;
+             silent = the broker reads the request and never answers: the attempt is in flight when Close is called and
+             ends, failed, by the code's own step - the ResponseHeaderTimeout of the transport - like a held poll that fails)
      pre:    none | sess | pconn | stream    (what has happened to the connection before Close is called)
      closes: c | cc | c2                     (Close once, twice in a row, two overlapping calls)
      Result: ret=<returned>/<calls>;inflight=<a Close returned with the attempt in flight>;melt=;open=<live peers>;
@@ -14,9 +16,10 @@
               badjson  the broker's answer is not a poll response
               badsdp   the answer is not a session description the peer connection accepts
               noopen   the proxy answers but its data channel never opens
+              silent   the broker reads the request and never answers: Negotiate fails by the transport's own timer
      what each attempt does is Model/Connect.v's new_peer CV1 with the outcomes of the kind; the attempt is the
      collector of the Peers machine being at C_Catching; Conn_Ok = Catch_ok, anything else = Catch_err.
-     Result: att=<attempts made>;ev=<events of all attempts, '+'-separated>;peer=<live peers held>;ret=;melt=;open=
+     Result: att=<attempts made>;ev=<events of all attempts, '+'-separated>;peer=<live peers held>;ret=;melt=;open=;fly=
    every scenario ends with  ;term=<a listener rendering the events as the client binary does panicked>;nilerr=<failure
    events without an error>
    The Go driver (harness/overlay/client/lib/zz_verif_c15_test.go, c15RunCloseScenario / c15RunRetryScenario) runs the
@@ -24,7 +27,7 @@
    !fuel = a run to quiescence ran out of fuel; !disabled = a step the adapter asked for was not enabled: neither is
    ever passed off as a result. *)
 From Coq Require Import List NArith Bool Arith String.
-From Snow Require Import Lib.Wire Model.Peers Model.Connect Model.CloseConn.
+From Snow Require Import Lib.Wire Model.Peers Model.Connect Model.CloseConn Model.BrokerExchange.
 From Snow Require Run.ConnectRun.
 Import ListNotations.
 Open Scope N_scope.
@@ -82,7 +85,10 @@ Definition flags (x : kx) (r : bytes) : bytes :=
 Definition scenario (kv : kversion) (max : nat) (kind pre closes : bytes) : option bytes :=
   let x0 := mkX (kinit max) false false in
   let first :=
-    if beq kind (bs "fail") then Some (Some false)
+    if beq kind (bs "silent") then
+      (* held until the code's own timer ends the exchange: legal only if Model/BrokerExchange.v says it does end, failed *)
+      match negotiate_outcome code_transport B_Silent with Some false => Some None | _ => None end
+    else if beq kind (bs "fail") then Some (Some false)
     else if beq kind (bs "good") then Some (Some true)
     else if beq kind (bs "hold") || beq kind (bs "holdgood") then Some None
     else None in
@@ -134,6 +140,12 @@ Definition good_outcomes : outcomes := mkO true true true true true true true.
 
 Definition fail_outcomes (kind : bytes) : option outcomes :=
   if beq kind (bs "ice") then Some (mkO false true true true true true true)
+  else if beq kind (bs "silent") then
+    (* Negotiate's outcome is what the exchange over the code's transport gives against a silent broker *)
+    match negotiate_outcome code_transport B_Silent with
+    | Some ok => Some (mkO true true true true ok true true)
+    | None => None
+    end
   else if beq kind (bs "unreach") || beq kind (bs "refuse") || beq kind (bs "badjson")
        then Some (mkO true true true true false true true)
   else if beq kind (bs "badsdp") then Some (mkO true true true true true false true)
@@ -179,6 +191,8 @@ Definition retry_scenario (kv : kversion) (max : nat) (kind : bytes) (k : nat) :
             ++ bs ";ret=" ++ nat_print (List.length (filter returned (closers c3))) ++ bs "/1"
             ++ bs ";melt=" ++ bool_print (melted (ps c3))
             ++ bs ";open=" ++ nat_print (List.length (live_peers (ps c3)))
+            (* every attempt of the model is over when the collector returns: none is left with the broker *)
+            ++ bs ";fly=0"
             ++ bs ";term=" ++ bool_print (negb (forallb render_ok evs))
             ++ bs ";nilerr=" ++ nat_print (List.length (filter (fun e => negb (render_ok e)) evs))))
   end.
